@@ -59,8 +59,20 @@ def remove (v : AbsVal) (p : Int) : AbsVal :=
   else if p = v.hi then ⟨v.lo, v.hi - 1, v.ne⟩
   else trim ⟨v.lo, v.hi, p :: v.ne⟩
 
-def meetLo (v : AbsVal) (l : Int) : AbsVal := ⟨max v.lo l, v.hi, v.ne⟩
-def meetHi (v : AbsVal) (h : Int) : AbsVal := ⟨v.lo, min v.hi h, v.ne⟩
+/-- move a lower bound up past excluded points (at most `n` steps) -/
+def bumpLo (ne : List Int) : Nat → Int → Int
+  | 0, lo => lo
+  | n + 1, lo => if ne.contains lo then bumpLo ne n (lo + 1) else lo
+
+def bumpHi (ne : List Int) : Nat → Int → Int
+  | 0, hi => hi
+  | n + 1, hi => if ne.contains hi then bumpHi ne n (hi - 1) else hi
+
+/-- tighten the bounds against the excluded points -/
+def norm (v : AbsVal) : AbsVal := ⟨bumpLo v.ne v.ne.length v.lo, bumpHi v.ne v.ne.length v.hi, v.ne⟩
+
+def meetLo (v : AbsVal) (l : Int) : AbsVal := norm ⟨max v.lo l, v.hi, v.ne⟩
+def meetHi (v : AbsVal) (h : Int) : AbsVal := norm ⟨v.lo, min v.hi h, v.ne⟩
 
 /-- certainly empty (sufficient test) -/
 def isEmpty (v : AbsVal) : Bool := decide (v.lo > v.hi) || (decide (v.lo = v.hi) && v.ne.contains v.lo)
@@ -83,17 +95,23 @@ def top (P : Platform) (t : Ty) : AbsVal := .range (tmin P t) (tmax P t)
 
 def fits (P : Platform) (t : Ty) (v : AbsVal) : Bool := decide (tmin P t ≤ v.lo) && decide (v.hi ≤ tmax P t)
 
+/-- the empty abstract value (no execution produces a value: the operation is undefined for every operand value) -/
+def abot : AbsVal := ⟨1, 0, []⟩
+
 /-- abstract conversion to type `t` -/
 def aconv (P : Platform) (t : Ty) (v : AbsVal) : AbsVal :=
-  if fits P t v then v
+  if v.isEmpty then abot
+  else if fits P t v then v
   else match v.isConst with
     | some c => .const (conv P t c)
     | none => top P t
 
-/-- result of `arith P t r` for `r ∈ [lo, hi]` -/
-def aarith (P : Platform) (t : Ty) (lo hi : Int) : AbsVal :=
-  if t.signed then .range (max lo (tmin P t)) (min hi (tmax P t))
-  else if 0 ≤ lo ∧ hi ≤ tmax P t then .range lo hi else top P t
+/-- result of `arith P t r` for `r ∈ [lo, hi]`, `r ∉ ne` -/
+def aarithNe (P : Platform) (t : Ty) (lo hi : Int) (ne : List Int) : AbsVal :=
+  if t.signed then ⟨max lo (tmin P t), min hi (tmax P t), ne⟩
+  else if 0 ≤ lo ∧ hi ≤ tmax P t then ⟨lo, hi, ne⟩ else top P t
+
+def aarith (P : Platform) (t : Ty) (lo hi : Int) : AbsVal := aarithNe P t lo hi []
 
 def abool : AbsVal := .range 0 1
 
@@ -130,11 +148,12 @@ def binTy (P : Platform) (op : BinOp) (ta tb : Ty) : Ty :=
   if op.isCmp then tInt else if op.isShift then promote P ta else uac P ta tb
 
 def absBin (P : Platform) (op : BinOp) (ta tb : Ty) (a b : AbsVal) : AbsVal :=
+  if a.isEmpty || b.isEmpty then abot else
   match a.isConst, b.isConst with
   | some ca, some cb =>
     match evalBin P op ta tb ca cb with
     | some r => .const r
-    | none => top P (binTy P op ta tb)
+    | none => abot
   | _, _ =>
     if op.isShift then top P (promote P ta)
     else
@@ -142,10 +161,23 @@ def absBin (P : Platform) (op : BinOp) (ta tb : Ty) (a b : AbsVal) : AbsVal :=
       let a' := aconv P t a
       let b' := aconv P t b
       match op with
-      | .add => aarith P t (a'.lo + b'.lo) (a'.hi + b'.hi)
-      | .sub => aarith P t (a'.lo - b'.hi) (a'.hi - b'.lo)
+      | .add =>
+        aarithNe P t (a'.lo + b'.lo) (a'.hi + b'.hi)
+          (match a'.isConst, b'.isConst with
+           | _, some c => a'.ne.map (· + c)
+           | some c, _ => b'.ne.map (c + ·)
+           | _, _ => [])
+      | .sub =>
+        aarithNe P t (a'.lo - b'.hi) (a'.hi - b'.lo)
+          (match a'.isConst, b'.isConst with
+           | _, some c => a'.ne.map (· - c)
+           | some c, _ => b'.ne.map (c - ·)
+           | _, _ => [])
       | .mul =>
-        if a'.isConst = some 0 ∨ b'.isConst = some 0 then .const 0 else top P t
+        match a'.isConst, b'.isConst with
+        | _, some c => if c ≥ 0 then aarith P t (a'.lo * c) (a'.hi * c) else aarith P t (a'.hi * c) (a'.lo * c)
+        | some c, _ => if c ≥ 0 then aarith P t (c * b'.lo) (c * b'.hi) else aarith P t (c * b'.hi) (c * b'.lo)
+        | _, _ => top P t
       | .div =>
         match b'.isConst with
         | some c => if c > 0 ∧ a'.lo ≥ 0 then .range (a'.lo / c) (a'.hi / c) else top P t
@@ -167,6 +199,7 @@ def absBin (P : Platform) (op : BinOp) (ta tb : Ty) (a b : AbsVal) : AbsVal :=
       | _ => top P t
 
 def absUn (P : Platform) (op : UnOp) (ta : Ty) (a : AbsVal) : AbsVal :=
+  if a.isEmpty then abot else
   match op with
   | .lnot => if a.excl 0 then .const 0 else if a.isConst = some 0 then .const 1 else abool
   | .neg =>
@@ -404,17 +437,17 @@ def checkS (c : Ctx) : Stmt → AEnv → Bool × AOut
   | .assign id x e, s =>
     let (ok, v) := checkE c s e
     let v' := aconv c.P (varTy c.vars x) v
-    (ok && factOk c.φ id v', ⟨some (s.set x v'), none, none⟩)
+    (ok && factOk c.φ id v', ⟨if v'.isEmpty then none else some (s.set x v'), none, none⟩)
   | .compound id op x e, s =>
     let (ok, v) := checkE c s e
     let r := absBin c.P op (varTy c.vars x) (tyOf c.P c.vars e) (alook s x) v
     let v' := aconv c.P (varTy c.vars x) r
-    (ok && factOk c.φ id v', ⟨some (s.set x v'), none, none⟩)
+    (ok && factOk c.φ id v', ⟨if v'.isEmpty then none else some (s.set x v'), none, none⟩)
   | .incdec id inc pre x, s =>
     let old := alook s x
     let r := absBin c.P (if inc then .add else .sub) (varTy c.vars x) tInt old (.const 1)
     let v' := aconv c.P (varTy c.vars x) r
-    (factOk c.φ id (if pre then v' else old), ⟨some (s.set x v'), none, none⟩)
+    (factOk c.φ id (if pre then v' else old), ⟨if v'.isEmpty then none else some (s.set x v'), none, none⟩)
   | .seq a b, s =>
     let (ok1, o1) := checkS c a s
     match o1.normal with
